@@ -116,7 +116,7 @@ func checkC20(ca *checkArgs) int {
 	plan := &histPlan{level: "exploration",
 		rule: "one evaluation = one seed executed by both builds (default: amd64 assembly feMul/feSquare; purego: generic code) and compared: even run indices are field-operation histories over 8-16 Element slots, odd ones general point/scalar/field histories; compared per step: values (mod p / affine point / scalar) of every written slot, returned bytes, ints and errors, and the all-limbs-below-2^52 flag; non-trivial = at least one step executed; distinct = distinct value-level event-log hash"}
 	var unreached []string
-	for _, k := range []string{"op/Element.Multiply", "op/Element.Square", "op/Point.ScalarMult", "probe/elem_limb_ge_2^51", "probe/elem_value_ge_p_unreduced"} {
+	for _, k := range []string{"op/Element.Multiply", "op/Element.Square", "op/Point.ScalarMult"} {
 		if total.stats.C[k] == 0 {
 			unreached = append(unreached, k)
 		}
